@@ -19,10 +19,6 @@ git apply SEED/patch.diff || { echo "patch does not apply" >> $LOG; exit 3; }
 echo "== with the change" >> $LOG
 cargo build --offline >> /dev/null 2>&1 || echo "BUILD FAILED" >> $LOG
 (timeout 600 bash SEED/demo.sh > /tmp/confirm-$NAME-demo1.log 2>&1; echo "demo with change: rc=$?" >> $LOG)
-cargo test --offline --no-fail-fast 2>&1 | grep -E "^test result|FAILED" | sort | uniq > /tmp/confirm-$NAME-tests.log
-grep "^test result" /tmp/confirm-$NAME-tests.log >> $LOG
-echo "failed tests with the change: $(grep -c 'FAILED$' /tmp/confirm-$NAME-tests.log || true) (12 expected: the sandbox failures)" >> $LOG
-grep -E "^test [A-Za-z0-9_:]+ \.\.\. FAILED" /tmp/confirm-$NAME-tests.log | sed 's/ \.\.\. FAILED//' | sort > /tmp/confirm-$NAME-failed.txt
 cat > /tmp/expected-failed.txt <<EOT
 test filter_tests::remote::test_filter_normalized_paths
 test remote_tests::needs_deploy_error
@@ -37,6 +33,14 @@ test symlink_tests::remote::test_symlink_target_slashes
 test symlink_tests::remote::test_unknown_symlink_unix_to_windows
 test sync_tests::read_only_dest_file
 EOT
+# (the suite has a known flake: prompt tests match their regex against a random temp directory name; so up to 3 attempts)
+for attempt in 1 2 3; do
+cargo test --offline --no-fail-fast 2>&1 | grep -E "^test result|FAILED" | sort | uniq > /tmp/confirm-$NAME-tests.log
+grep -E "^test [A-Za-z0-9_:]+ \.\.\. FAILED" /tmp/confirm-$NAME-tests.log | sed 's/ \.\.\. FAILED//' | sort > /tmp/confirm-$NAME-failed.txt
+if diff -q /tmp/confirm-$NAME-failed.txt /tmp/expected-failed.txt >/dev/null; then break; fi
+echo "suite attempt $attempt differs: $(diff /tmp/confirm-$NAME-failed.txt /tmp/expected-failed.txt | tr '\n' ' ')" >> $LOG
+done
+grep "^test result" /tmp/confirm-$NAME-tests.log >> $LOG
 if diff -q /tmp/confirm-$NAME-failed.txt /tmp/expected-failed.txt >/dev/null; then echo "suite: same 12 failures as baseline, everything else passes" >> $LOG; else echo "SUITE DIFFERS:" >> $LOG; diff /tmp/confirm-$NAME-failed.txt /tmp/expected-failed.txt >> $LOG; fi
 cd /; git -C /repo worktree remove --force $WT
 cat $LOG
